@@ -141,11 +141,21 @@ func genBound(t *rapid.T, terms []string, label string) []byte {
 func TestC08(t *testing.T) {
 	st := NewStats("C08", c08Rule)
 	defer st.Flush()
-	rapid.Check(t, func(t *rapid.T) {
+	rapid.Check(t, c08Prop(st, FamSmall))
+}
+
+func TestC08Terms(t *testing.T) {
+	st := NewStats("C08Terms", c08Rule)
+	defer st.Flush()
+	rapid.Check(t, c08Prop(st, FamTerms))
+}
+
+func c08Prop(st *CaseStats, fam int) func(t *rapid.T) {
+	return func(t *rapid.T) {
 		ctx := &Ctx{}
 		defer ctx.Close()
 		sc := GenScenario(t)
-		c, err := GenCase(t, ctx, sc, CaseCfg{Family: FamSmall, MaxDocs: 8, MaxIn: 3, HoldAny: true},
+		c, err := GenCase(t, ctx, sc, CaseCfg{Family: fam, MaxDocs: 8, MaxIn: 3, HoldAny: true},
 			rapid.SampledFrom([]int{0, 1, 1, 1, 2}).Draw(t, "depth"), "c")
 		if err != nil {
 			t.Fatalf("%s: %v", sc, err)
@@ -289,6 +299,9 @@ func TestC08(t *testing.T) {
 		for k := 0; k < 4; k++ {
 			field := rapid.SampledFrom(ProbeFields).Draw(t, "cField")
 			term := rapid.SampledFrom(append(append([]string{}, TermVocab...), "absent")).Draw(t, "cTerm")
+			if ks := sortedKeys(c.Exp.Post[field]); len(ks) > 0 && rapid.Bool().Draw(t, "cLive") {
+				term = rapid.SampledFrom(ks).Draw(t, "cLiveTerm")
+			}
 			live := c.Exp.Post[field][term]
 			if len(live) == 0 {
 				if err := probeAbsent(c.Seg, field, term); err != nil {
@@ -327,5 +340,5 @@ func TestC08(t *testing.T) {
 		}
 		sort.Strings(labels)
 		st.Record(fmt.Sprintf("%s %s queries%s", sc, c.Desc, queries), nt, dedup(labels)...)
-	})
+	}
 }
